@@ -167,14 +167,29 @@ func runC12(r *R) {
 				parts := ConcatParts(c.Call.Args[0])
 				okv := len(parts) == 2 && same(parts[0], hash)
 				if okv {
-					if same(parts[1], uuid) {
-						g, _ := Guard(fn, nil, ret, NeqC("len(uuid) != 27", lenVP, ConstIntVP(27)))
-						okv = g
-					} else {
-						x, lo, hi, isS := SliceParts(parts[1])
-						l, _ := ConstInt(lo)
-						g, _ := Guard(fn, nil, ret, EqC("len(uuid) == 27", lenVP, ConstIntVP(27)))
-						okv = isS && same(x, uuid) && hi == nil && lo != nil && l == 27-15 && g
+					// the suffix may be chosen first (`suffix := uuid; if len(uuid)==27 { suffix = uuid[12:] }`): decide per arriving value
+					var phi *ssa.Phi
+					leaves := []ssa.Value{parts[1]}
+					if p, isPhi := Strip(parts[1]).(*ssa.Phi); isPhi {
+						phi = p
+						leaves = p.Edges
+						n += len(leaves) - 1
+					}
+					for k, leaf := range leaves {
+						guard := func(cp CP) bool {
+							if phi != nil {
+								return GuardLeaf(fn, phi, k, ret, cp)
+							}
+							g, _ := Guard(fn, nil, ret, cp)
+							return g
+						}
+						if same(leaf, uuid) {
+							okv = okv && guard(NeqC("len(uuid) != 27", lenVP, ConstIntVP(27)))
+						} else {
+							x, lo, hi, isS := SliceParts(leaf)
+							l, _ := ConstInt(lo)
+							okv = okv && isS && same(x, uuid) && hi == nil && lo != nil && l == 27-15 && guard(EqC("len(uuid) == 27", lenVP, ConstIntVP(27)))
+						}
 					}
 				}
 				r.Check(okv, "C12-R2", fn, "return Md5String(hash + uuid[12:])", ret.Pos(), "hash followed by the last 15 characters of a 27-character uuid", "weight is not md5(hash + last 15 chars of the uuid)")
